@@ -71,4 +71,24 @@ theorem anyLess_self : ∀ x : List Int, anyLess x x = false
   | [] => rfl
   | a :: xs => by simp [anyLess, anyLess_self xs]
 
+
+theorem dominates_irrefl' (x : List Int) : dominates x x = false := by
+  simp [dominates, anyGreater_self, anyLess_self]
+
+theorem dominates_trans' (x y z : List Int) (hxy : x.length = y.length) (hyz : y.length = z.length)
+    (h1 : dominates x y = true) (h2 : dominates y z = true) : dominates x z = true := by
+  have hxz : x.length = z.length := hxy.trans hyz
+  rw [dominates_eq_true_iff, anyGreater_eq_false_iff x y hxy, anyLess_eq_true_iff x y hxy] at h1
+  rw [dominates_eq_true_iff, anyGreater_eq_false_iff y z hyz, anyLess_eq_true_iff y z hyz] at h2
+  rw [dominates_eq_true_iff, anyGreater_eq_false_iff x z hxz, anyLess_eq_true_iff x z hxz]
+  obtain ⟨a1, i, hix, hiy, hlt⟩ := h1
+  obtain ⟨a2, _⟩ := h2
+  refine ⟨?_, i, hix, by omega, ?_⟩
+  · intro j hx hz
+    have := a1 j hx (by omega)
+    have := a2 j (by omega) hz
+    omega
+  · have := a2 i hiy (by omega)
+    omega
+
 end Crem.Dominance
